@@ -1,7 +1,7 @@
 """Generic argument-form / history / layout / scale engine for every public function of teneva.
 
 One TABLE (harness/forms_table.py) describes, per exported callable, a small valid baseline call and the kind of every
-parameter.  Nine metamorphic relations are derived from it mechanically (`f(x') == f(x)` where x' denotes the same
+parameter.  Ten metamorphic relations are derived from it mechanically (`f(x') == f(x)` where x' denotes the same
 mathematical input):
 
   R1 int-forms        int parameters as np.int64 / np.int32 / np.int16, number parameters as np.float64 / int, documented
@@ -20,6 +20,7 @@ mathematical input):
   R9 shared-objects   the same ndarray object in every position of equal shape of a TT argument ([A] + [G]*(d-2) + [B], [G]*d),
                       two TT arguments being the same list / sharing their cores, a list of tensors repeating one tensor:
                       result as on independent copies, arguments untouched
+  R10 positional      the baseline call with every argument passed by position in the DOCUMENTED order (signature pins)
 R4 is also run once per container / dtype form of every vector parameter (ndarray of exactly the target dtype, plain list).
 
 API (see harness/briefs/FORMS.md):
@@ -46,9 +47,9 @@ if __name__ == '__main__' or __package__ in (None, ''):
     sys.path.insert(0, os.path.dirname(os.path.dirname(os.path.abspath(__file__))))
 from harness import common as C  # noqa: E402
 
-RELATIONS = ['R1', 'R2', 'R3', 'R4', 'R5', 'R6', 'R7', 'R8', 'R9']
+RELATIONS = ['R1', 'R2', 'R3', 'R4', 'R5', 'R6', 'R7', 'R8', 'R9', 'R10']
 REL_NAME = dict(R1='int-forms', R2='flag-forms', R3='container-forms', R4='history', R5='layouts', R6='scale',
-                R7='integer-dtypes', R8='defaults', R9='shared-objects')
+                R7='integer-dtypes', R8='defaults', R9='shared-objects', R10='positional')
 INT_DTYPES = ['int8', 'uint8', 'int16', 'uint16', 'int32', 'uint32', 'uint64']      # against int64
 TIME_KEYS = {'t'}            # wall-clock entries of info dictionaries
 TOLERATED_FORMS = {'array0', 'i8', 'u8', 'S64'}      # forms outside the documented types: may raise, must not silently differ
@@ -415,7 +416,7 @@ def _alarm(signum, frame):
     raise CallTimeout(f'call did not return within {CALL_TIMEOUT} s')
 
 
-def run(tn, E, args):
+def run(tn, E, args, pos=None, kw=None):
     """('ok', result) or ('exc', exception type name, message).  Every call runs under a wall-clock limit (a changed
     stopping rule must not hang the check): a call that does not return counts as raising CallTimeout."""
     import signal
@@ -430,7 +431,7 @@ def run(tn, E, args):
     try:
         with contextlib.redirect_stdout(buf), warnings.catch_warnings(), np.errstate(all='ignore'):
             warnings.simplefilter('ignore')
-            res = E.call(tn, args) if E.call else E.fn(tn)(**args)
+            res = E.call(tn, args) if E.call else (E.fn(tn)(*pos, **(kw or {})) if pos is not None else E.fn(tn)(**args))
             if E.post:
                 res = (res, E.post(tn, res, args))
         return ('ok', res)
@@ -555,6 +556,43 @@ def _is_intlike(v):
     return isinstance(v, (int, np.integer)) and not isinstance(v, (bool, np.bool_))
 
 
+def _positional(tn, E, args):
+    """(positional list, keyword dict) of the call `args` in the DOCUMENTED parameter order (harness/signature_pins.json): every
+    parameter up to the last one the call supplies is passed by position (documented defaults fill the gaps), keyword-only
+    parameters stay keywords; None when the documented order is not available or a gap has no evaluable default"""
+    documented_defaults(E)                          # loads the pins
+    rec = _PINS['pins'].get(E.name.split('.')[0])
+    if not rec or not rec.get('params'):
+        return None
+    params = list(rec['params'])
+    if any(p not in params for p in args):
+        return None
+    try:
+        sig = inspect.signature(E.fn(tn))
+        kwonly = {k for k, q in sig.parameters.items() if q.kind is inspect.Parameter.KEYWORD_ONLY}
+    except (TypeError, ValueError):
+        kwonly = set()
+    kwonly |= set(rec.get('kwonly') or [])
+    order = [p for p in params if p not in kwonly]
+    supplied = [k for k, p in enumerate(order) if p in args]
+    if not supplied:
+        return None
+    pos = []
+    for p in order[:supplied[-1] + 1]:
+        if p in args:
+            pos.append(args[p])
+            continue
+        src = rec.get('defaults', {}).get(p)
+        if src is None:
+            return None
+        try:
+            pos.append(eval(src, {'np': np, 'None': None, 'True': True, 'False': False, 'float': float, 'int': int,
+                                  '__builtins__': {}}))
+        except Exception:
+            return None
+    return pos, {p: v for p, v in args.items() if p in kwonly}
+
+
 def _is_core_list(v):
     return isinstance(v, list) and len(v) > 0 and all(isinstance(G, np.ndarray) and G.ndim >= 2 for G in v)
 
@@ -643,6 +681,8 @@ def variants(tn, E, rel, args, deep=False, seed=None, size=None):
     """list of variant descriptors (JSON-able lists) of relation `rel` applicable to the baseline arguments"""
     out = []
     dflt = signature_defaults(tn, E)
+    if rel == 'R10':
+        return [['all']] if not E.call and _positional(tn, E, args) is not None else []
     if rel == 'R9':
         if seed is None:
             return []
@@ -853,6 +893,19 @@ def eval_variant(tn, E, seed, size, rel, var):
         return None
     if rel == 'R4':
         return _history(tn, E, seed, size, var, dflt)
+    if rel == 'R10':
+        base = run(tn, E, args0)
+        if base[0] == 'exc' and not (base[1] == 'ValueError' and E.rejects):
+            raise Skip(f'baseline raised {base[1]}: {base[2]}')
+        a1 = make_args(tn, E, seed, size)
+        pk = _positional(tn, E, a1)
+        if pk is None:
+            raise Skip('no documented parameter order')
+        got = run(tn, E, a1, pos=pk[0], kw=pk[1])
+        if outcome_canon(got) != outcome_canon(base):
+            return (f'all arguments by position in the documented order ({len(pk[0])} positional): {short(got)} instead of '
+                    f'{short(base)} (keyword call)')
+        return None
     if rel == 'R9':
         return _shared(tn, E, seed, size, var)
     if rel == 'R7':
